@@ -197,6 +197,7 @@ func runAds(hist []byte, cfg adpCfg) (string, []string) {
 			if c.monState != "parked" {
 				return "skip"
 			}
+			wasOpen := c.obsOpen()
 			c.monState = "busy"
 			c.hmu.Lock()
 			gate := c.monGate
@@ -213,6 +214,7 @@ func runAds(hist []byte, cfg adpCfg) (string, []string) {
 					toks = append(toks, t)
 				}
 			}
+			c.checkOutage(toks, cfg, 0, wasOpen)
 			return c.report(nil, strings.Join(toks, ","))
 		}
 		return "a"
